@@ -143,6 +143,8 @@ def attr_value(spec, attr, backend):
     if attr == "parsers":
         return [mk_parser(p) for p in v]
     if attr == "default":
+        if v == "falsy":  # a default that is set and falsy
+            return {"int": 0, "none": 0, "float": 0.0, "str": ""}.get(spec["dtype"], default_value(spec["dtype"]))
         return default_value(spec["dtype"]) if v else None
     if attr == "metadata":
         return copy.deepcopy(v)
